@@ -307,7 +307,15 @@ def build(case, mon, outroot=None):
     hard, soft = DepGraph(), DepGraph()
     groups = case.get('groups')
     if groups:
-        return tasks, nested_hard_graph(case, tasks), flat_soft(case, tasks)
+        subs = []
+        hard = nested_hard_graph(case, tasks, subs)
+        soft = flat_soft(case, tasks)
+        # group-level soft edges (only used around empty groups): the same
+        # sub-graph objects are nodes of both graphs
+        for gidx, deps in case.get('gsoft', {}).items():
+            for dep in deps:
+                soft.add_dependency(subs[int(gidx)], on=subs[dep])
+        return tasks, hard, soft
     for name in case['tasks']:
         hard.add_node(tasks[name])
         soft.add_node(tasks[name])
@@ -324,13 +332,16 @@ def flat_soft(case, tasks):
     soft = DepGraph()
     for name in case['tasks']:
         soft.add_node(tasks[name])
+    # 'soft_direct': the soft edges given task by task (case['soft'] may also
+    # hold what group-level edges mean)
+    direct = case.get('soft_direct', case.get('soft', {}))
     for name in case['tasks']:
-        for dep in sorted(case.get('soft', {}).get(name, [])):
+        for dep in sorted(direct.get(name, [])):
             soft.add_dependency(tasks[name], on=tasks[dep])
     return soft
 
 
-def nested_hard_graph(case, tasks):
+def nested_hard_graph(case, tasks, subs=None):
     '''Hard graph whose nodes are sub-graphs (``case['groups']``: lists of
     task names; ``case['ghard']``: group index -> indices of the groups it
     depends on).  ``case['hard']`` already holds, task by task, what the
@@ -338,7 +349,7 @@ def nested_hard_graph(case, tasks):
     depending on every task of the groups its group depends on.'''
     from valjean.cosette.depgraph import DepGraph
     outer = DepGraph()
-    subs = []
+    subs = [] if subs is None else subs
     for members in case['groups']:
         sub = DepGraph()
         inside = set(members)
@@ -390,11 +401,40 @@ def nest(rng, case):
     # soft edges must not contradict the new hard order
     case['soft'] = {n: [d for d in deps if d not in case['hard'].get(n, [])]
                     for n, deps in case['soft'].items()}
+    gsoft = {}
+    if rng.random() < 0.4:
+        # an empty group used as a node between two groups: b -> E -> a, each
+        # edge hard or soft.  An empty node is transparent: b comes after a;
+        # the ordering is a hard dependency only if both edges are hard.
+        aidx, bidx = sorted(rng.sample(range(len(groups)), 2))
+        case['soft_direct'] = {n: list(d) for n, d in case['soft'].items()}
+        eidx = len(groups)
+        groups.append([])
+        kind_be, kind_ea = rng.choice(['hard', 'soft']), \
+            rng.choice(['hard', 'soft'])
+        (ghard if kind_be == 'hard' else gsoft).setdefault(
+            bidx, set()).add(eidx)
+        (ghard if kind_ea == 'hard' else gsoft).setdefault(
+            eidx, set()).add(aidx)
+        both_hard = kind_be == kind_ea == 'hard'
+        for name in groups[bidx]:
+            if both_hard:
+                hard[name] = sorted(set(hard.get(name, []))
+                                    | set(groups[aidx]))
+            else:
+                case['soft'][name] = sorted(
+                    set(case['soft'].get(name, [])) | set(groups[aidx]))
+        case['hard'] = {n: sorted(set(d)) for n, d in hard.items()}
+        case['soft'] = {n: [d for d in deps
+                            if d not in case['hard'].get(n, [])]
+                        for n, deps in case['soft'].items()}
+        case['empty_group'] = [kind_be, kind_ea]
     case['groups'] = groups
     order = list(range(len(groups)))
     rng.shuffle(order)
     case['gorder'] = order
     case['ghard'] = {str(g): sorted(d) for g, d in ghard.items()}
+    case['gsoft'] = {str(g): sorted(d) for g, d in gsoft.items()}
     return case
 
 
